@@ -9,6 +9,7 @@ import (
 
 	"verif/harness/copyx"
 	"verif/harness/gen"
+	"verif/harness/regmodel"
 	"verif/harness/vt"
 )
 
@@ -42,6 +43,32 @@ func genCase(t *rapid.T) copyx.Case {
 		root = c.MapTo
 	}
 	c.Pre = copyx.GenPre(t, d, d.Reach(root, true), root)
+	return c
+}
+
+// genRemote: pairings that involve a remote.Repository over the registry model.
+func genRemote(t *rapid.T) copyx.Case {
+	max := 12
+	if vt.Thorough() {
+		max = 24
+	}
+	pair := rapid.SampledFrom([][2]string{{"remote", "remote"}, {"remote", "memory"}, {"memory", "remote"}, {"oci", "remote"}, {"remote", "oci"}}).Draw(t, "pair")
+	o := gen.DAGOpts{MaxNodes: max, ManifestSHA: true, SingleMT: true, NoBlobSubj: true}
+	c := copyx.GenBase(t, o, []string{pair[0]}, []string{pair[1]})
+	c.SrcKind, c.DstKind = pair[0], pair[1]
+	d := gen.Build(c.Specs)
+	c.SrcProfile = regmodel.Profile{ReferrersAPI: rapid.Bool().Draw(t, "srcAPI"), AcceptRanges: rapid.Bool().Draw(t, "ranges"), Chunked: rapid.IntRange(0, 3).Draw(t, "chunked") == 0, PageCap: rapid.SampledFrom([]int{0, 1, 2}).Draw(t, "cap"), LinkStyle: rapid.IntRange(0, 4).Draw(t, "link")}
+	c.DstProfile = regmodel.Profile{StrictBlobs: true, ReferrersAPI: rapid.Bool().Draw(t, "dstAPI"), LocationQuery: rapid.Bool().Draw(t, "locq"), LocationAbs: rapid.Bool().Draw(t, "locabs"), MountCreated: true}
+	c.DstProfile.SubjectHeader = c.DstProfile.ReferrersAPI && rapid.Bool().Draw(t, "subjHdr")
+	c.API = rapid.SampledFrom([]string{"copygraph", "copy", "copy", "copy-blankdst"}).Draw(t, "api")
+	// a registry tags manifests only
+	if c.API != "copygraph" && !d.IsManifest(d.Nodes[c.Root].Canon) {
+		c.API = "copygraph"
+	}
+	if c.SrcKind == "remote" && !d.IsManifest(d.Nodes[c.Root].Canon) && c.API != "copygraph" {
+		c.API = "copygraph"
+	}
+	c.Pre = copyx.GenPre(t, d, d.Reach(c.Root, true), c.Root)
 	return c
 }
 
@@ -167,7 +194,10 @@ func runCase(c copyx.Case) (res vt.Result, fail *vt.Fail) {
 }
 
 func TestMain(m *testing.M) {
-	vt.Main(m, "C01", vt.NewLeg("main", 1500, 5000, 16, genCase, runCase))
+	vt.Main(m, "C01",
+		vt.NewLeg("main", 1500, 5000, 16, genCase, runCase),
+		vt.NewLeg("remote", 600, 2500, 8, genRemote, runCase),
+	)
 }
 
 func TestLegs(t *testing.T)   { vt.TestLegs(t) }
